@@ -191,11 +191,14 @@ fn run_sim(sc: &Scenario) -> Outcome {
             if with_timeout {
                 client.set_timeout(TIMEOUT);
             }
-            let client = Arc::new(client);
+            // concurrent requests go through clones of the configured client, the way the API
+            // is meant to be used ("RpcClients are cheap to create")
             match workload {
                 Workload::Sequential => {
                     for id in 1..=3u32 {
-                        let r = call(&client, id, 16).await;
+                        // the original handle, then clones of it
+                        let c = if id == 1 { None } else { Some(client.clone()) };
+                        let r = call(c.as_ref().unwrap_or(&client), id, 16).await;
                         results.lock().unwrap().push(r);
                         tokio::time::sleep(Duration::from_millis(300)).await;
                     }
